@@ -104,12 +104,15 @@ PreKick(f) ==
   LET sc == cfg.srcs[f.src]
       n == (IF f.sid \in DOMAIN nkick THEN nkick[f.sid] ELSE 0) + 1
       kfail == \E q \in DOMAIN cfg.kickfail : cfg.kickfail[q] = <<f.sid, n>>
-      pre == IF sc.pre # "" THEN <<[Ev("presend") EXCEPT !.src = f.src, !.sid = f.sid, !.ok = ~f.cancel]>> ELSE <<>>
+      split == sc.pre = "async" /\ sc.future          \* pre_send returns a Future: it completes in its own atomic block
+      pre == IF sc.pre # "" /\ f.st # "kickonly" THEN <<[Ev("presend") EXCEPT !.src = f.src, !.sid = f.sid, !.ok = ~f.cancel]>> ELSE <<>>
       kick == <<[Ev("kick") EXCEPT !.sid = f.sid, !.n = n, !.ok = ~kfail, !.s = "payload_ok"]>>
       post == <<[Ev("postsend") EXCEPT !.src = f.src, !.sid = f.sid]>>
       removeIt == sc.removes /\ f.kind = "once"
   IN IF f.cancel /\ sc.pre # ""
      THEN /\ infl' = infl \ {f} /\ Emit(pre) /\ UNCHANGED <<nkick, sch>>
+     ELSE IF split /\ f.st # "kickonly"
+     THEN /\ infl' = (infl \ {f}) \cup {[f EXCEPT !.st = "kickonly"]} /\ Emit(pre) /\ UNCHANGED <<nkick, sch>>
      ELSE /\ nkick' = Upd(nkick, f.sid, n)
           /\ IF kfail
              THEN IF cfg.kicklat > 0
@@ -134,7 +137,7 @@ FireA(f) ==
   /\ UNCHANGED <<cfg, now, lp, wakeAt, pollN, nextId, snap, pending>>
 
 FireB(f) ==
-  /\ f \in infl /\ f.st = "pre"
+  /\ f \in infl /\ f.st \in {"pre", "kickonly"}
   /\ PreKick(f)
   /\ UNCHANGED <<cfg, now, lp, wakeAt, pollN, nextId, snap, pending>>
 
@@ -159,7 +162,7 @@ FireC(f) ==
 
 Internal == PollPurge \/ PollBegin \/ PollEval \/ Wake \/ \E f \in infl : FireA(f) \/ FireB(f) \/ FireC(f) \/ FireK(f)
 Quiescent == /\ ~(lp = "poll" /\ now >= wakeAt) /\ ~(lp = "sleep" /\ now >= wakeAt) /\ lp \notin {"eval", "list"}
-             /\ \A f \in infl : ~(f.st \in {"wait", "kick"} /\ now >= f.at) /\ f.st \notin {"pre", "post"}
+             /\ \A f \in infl : ~(f.st \in {"wait", "kick"} /\ now >= f.at) /\ f.st \notin {"pre", "post", "kickonly"}
 Timers == {wakeAt} \cup {f.at : f \in {g \in infl : g.st \in {"wait", "kick"}}}
 
 Advance(t) ==
